@@ -59,7 +59,9 @@ def c09(tier, seed, replay):
 
 
 def c10(tier, seed, replay):
-    return _run("C10", ("C10:",), "shaving: result inside plain bound consistency and the greatest fixpoint, keeps "
+    # every C10 trace runs the shaving configuration: wrong / duplicated / missing solutions and wrong optima of a
+    # solver using shaving are C10 violations too (the statement's last clause)
+    return _run("C10", ("C10:", "C01:sat-all", "C02:", "C03:optimal", "C03:none-iff-infeasible"), "shaving: result inside plain bound consistency and the greatest fixpoint, keeps "
                 "every solution, leaves the stack height unchanged, gives back every probed value that was not "
                 "refuted", tier, seed, replay)
 
